@@ -25,9 +25,9 @@ S2F = ['stream2_s%02d_f' % i for i in range(3)]
 S2 = ['stream2_s%02d_%s' % (i, d) for i in range(3) for d in 'fr']
 S3 = ['stream3_s%02d_%s' % (i, d) for i in range(25) for d in 'fr']
 SQ3 = ['streamq3_s04_f', 'streamq3_s12_r']          # join forward, fork reversed (= join in walk order)
-SQ3_ALL = ['streamq3_s%02d_%s' % (i, d) for i in range(25) for d in 'fr']
+SQ3_ALL = ['streamq3_s%02d_f' % i for i in range(25)] + ['streamq3_s%02d_r' % i for i in (4, 12, 10, 13, 1, 8, 16, 21)]
 # full consumer bound (2n+1 polls, n drops) on the shapes with a join, a fork, a chain and the triangle
-S3_FULL = ['stream3_s%02d_%s' % (i, d) for i in (4, 12, 10, 13, 0, 8) for d in 'fr']
+S3_FULL = ['stream3_s%02d_%s' % (i, d) for i in (4, 12, 10, 13) for d in 'fr']
 STREAM_QUICK = S2F + SQ3
 SQ4 = ['streamq4_s%02d_%s' % (i, d) for i in range(6) for d in 'fr']
 STREAM_THOROUGH = S2 + SQ3_ALL + S3_FULL + ['stream_sym_n2'] + SQ4
@@ -37,7 +37,7 @@ AUG_MID = ['augment_n2', 'augment3_s04', 'augment3_s01', 'augment3_s00', 'augmen
 AUG_ALL = ['augment_n2'] + ['augment3_s%02d' % i for i in range(25)]
 
 STREAM_BOUNDS = {
-    'graphs': 'quick: all 3 labelled DAGs on 2 functions (forward) + the join (0->2,1->2 forward) and the fork (0->1,0->2 walked in reverse) on 3 functions; thorough: all 25 labelled DAGs on 3 functions (quick consumer bound; 6 of them also with the full bound) and all 3 on 2, each forward and reverse, a fully symbolic 2-function graph (symbolic edges, kinds and order), and 6 shapes on 4 functions (join with tail, chain into fork, two parallel chains, diamond, N, join whose tail was inserted first), forward and reverse, with the quick consumer bound',
+    'graphs': 'quick: all 3 labelled DAGs on 2 functions (forward) + the join (0->2,1->2 forward) and the fork (0->1,0->2 walked in reverse) on 3 functions; thorough: all 25 labelled DAGs on 3 functions forward (8 of them also in reverse; quick consumer bound; join, fork, chain and triangle also with the full bound, both orders), all 3 on 2 functions forward and reverse, a fully symbolic 2-function graph (symbolic edges, kinds and order), and 6 shapes on 4 functions (join with tail, chain into fork, two parallel chains, diamond, N, join whose tail was inserted first), forward and reverse, with the quick consumer bound',
     'conflicts': 'symbolic: any symmetric relation in which every conflicting pair is joined by a path',
     'consumer': 'symbolic: 2n+1 poll_next calls (quick n=3: 2n-1), before each poll up to n (quick n=3: 2) drops of symbolically chosen held FnRefs, i.e. any number in any order between two polls; stream dropped with refs still held, refs dropped afterwards',
     'unwind': 'n+1 (all loops, unwinding assertions on)',
@@ -184,7 +184,7 @@ PROPERTIES['C09'] = {
 PROPERTIES['C15'] = {
     'quick': ['rerun2_s01_f', 'rerun2_s00_f'],
     'thorough': ['rerun2_s00_f', 'rerun2_s01_f', 'rerun2_s02_f', 'rerun2_s01_r', 'rerun3_s04_f'],
-    'tags': ['C15', 'C01', 'C02', 'C03', 'C05', 'C06'],
+    'tags': ['C15', 'C01', 'C02', 'C03', 'C05'],
     'attribute_panics': True,
     'functions': STREAM_FUNCS,
     'bounds': {'graphs': 'all 3 labelled DAGs on 2 functions (quick: 2 of them), thorough also the 3-function join', 'first run': 'a stream polled 0..2 times with symbolic drops, then abandoned: stream and held FnRefs dropped in either order', 'second run': 'a fresh stream on the same graph value with the full symbolic consumer of C05; every single-run oracle (C01 C02 C03 C05 C06 tags) must hold', 'unwind': 'n+1'},
@@ -196,7 +196,7 @@ PROPERTIES['C15'] = {
 PROPERTIES['C20'] = {
     'quick': ['pair2_s01_ff'],
     'thorough': ['pair2_s00_ff', 'pair2_s01_ff', 'pair2_s02_ff', 'pair2_s01_fr'],
-    'tags': ['C20', 'C01', 'C02', 'C03', 'C05', 'C06'],
+    'tags': ['C20', 'C01', 'C02', 'C03', 'C05'],
     'attribute_panics': True,
     'functions': STREAM_FUNCS,
     'bounds': {'graphs': 'labelled DAGs on 2 functions', 'runs': 'two streams on the same &FnGraph (forward/forward, forward/reverse), 8 steps, each step a symbolic choice of which stream moves: up to 2 symbolic FnRef drops then one poll_next', 'unwind': 'n+1'},
@@ -209,7 +209,9 @@ PROPERTIES['C20'] = {
 # RepInv is what C01 and C14 rest on as well: build_n2's C02-tagged assertions count for them
 PROPERTIES['C01']['quick'] = AUG_QUICK + BUILD_QUICK + STREAM_QUICK
 PROPERTIES['C01']['thorough'] = AUG_ALL + BUILD_QUICK + STREAM_THOROUGH
-PROPERTIES['C01']['tags'] = ['C01', 'C02']
+PROPERTIES['C01']['tags'] = ['C01', 'C02', 'C11: conflicting functions not joined by a path']
+PROPERTIES['C03']['tags'] = ['C03', 'C05: stream ended before every function was yielded', 'C05: stream yielded a function after it had ended']
+PROPERTIES['C06']['tags'] = ['C06', 'C05: stream pending without wake-up']
 PROPERTIES['C01']['functions'] = AUG_FUNCS + ['FnGraphBuilder::build (structure copies, predecessor counts; 2 functions)'] + STREAM_FUNCS
 PROPERTIES['C14']['quick'] = ['iter_sym_n3'] + BUILD_QUICK
 PROPERTIES['C14']['thorough'] = ['iter_sym_n2', 'iter_sym_n3'] + BUILD_QUICK
